@@ -5,6 +5,7 @@ import Mdsort.Proofs.ExecStdin
 import Mdsort.Proofs.WorldFdsEx
 import Mdsort.Proofs.ExecStatus
 import Mdsort.Proofs.ExecSeqEx
+import Mdsort.Proofs.EvalPFail
 
 /-!
 # C13 - commands get exactly the configured arguments and a clean process environment
@@ -121,12 +122,33 @@ example :
     [0, 1, 2, 126, 127, 128, 129, 200, 255].map (fun c => execStatus (c * 256)) = [0, 1, 2, 126, -1, 128, 129, 200, 255] ∧
     [15, 9, 11, 11 + 128, 6 + 128].map execStatus = [143, 137, 139, 139, 134] := by decide
 
-/-- A child whose `execvp` fails exits with `Model.execvpFailedStatus` = 127 whatever the reason (ENOENT, EACCES, ...):
-for the parent that is the fatal value -1, never a positive "ran and said no".  (Both 127s - the `_exit(127)` of the
-child and the `error == 127` of the parent - are constants written by hand in `Model/Scripts.lean`, not regenerated from
-util.c: a change of either in the source is noticed by the correspondence run only, this statement stays true.) -/
-theorem C13_execvp_failure_is_fatal : execStatus (execvpFailedStatus * 256) = -1 ∧ Proofs.waitKind (execvpFailedStatus * 256) = .exited 127 := by
+/-- A child whose `execvp` fails exits with `Gen.execChildExit` whatever the reason (ENOENT, EACCES, ...): for the parent
+that is the status `Gen.execFatalExit` it turns into the fatal value `Gen.execFatalValue`, which is negative - never a
+positive "ran and said no".  All three are regenerated from util.c `exec()` on every run (`tools/gen_tables.py`: the literal
+of `_exit(N)` after `execvp`, of `if (error == N) error = V`); `Model.execStatus` and `Model.execvpFailedStatus` are defined
+with them.  The statement is closed by evaluation of the generated table: changing the child's `_exit(127)` or the parent's
+`error == 127` / `error = -1` in the source (one without the other) makes it false. -/
+theorem C13_execvp_failure_is_fatal :
+    execvpFailedStatus = Gen.execChildExit ∧ Gen.execChildExit = Gen.execFatalExit ∧ Gen.execChildExit < 256 ∧
+    execStatus (Gen.execChildExit * 256) = Gen.execFatalValue ∧ Gen.execFatalValue < 0 ∧
+    Proofs.waitKind (Gen.execChildExit * 256) = .exited Gen.execFatalExit := by
   decide
+
+/-- The remaining literals of `exec()` as the source has them now (`Gen.exec*`, regenerated): a child killed by signal `g`
+gives `Gen.execSignalBase + g`, which is positive and above every exit code that can be mistaken for "exited 1..127";
+the three failure paths (`open("/dev/null")`, `fork`, `waitpid`) give `Gen.execCannotRunValue`, which is negative and is
+what the model's `execValue` returns there; a status that is neither "exited" nor "signalled" leaves the initial value
+`Gen.execInitialValue`, which is positive. -/
+theorem C13_exec_literals (f w : Res) :
+    Gen.execSignalBase = 128 ∧ Gen.execCannotRunValue < 0 ∧ 0 < Gen.execInitialValue ∧
+    Model.execValue false f w = Gen.execCannotRunValue ∧
+    (∀ e, Model.execValue true (.err e) w = Gen.execCannotRunValue) ∧
+    (∀ pid e, Model.execValue true (.ok pid) (.err e) = Gen.execCannotRunValue) ∧
+    (∀ g, Proofs.waitKind g = .signaled g → execStatus g = ((Gen.execSignalBase + g : Nat) : Int)) ∧
+    execStatus 127 = Gen.execInitialValue := by
+  refine ⟨by decide, by decide, by decide, by simp [Model.execValue], fun e => by simp [Model.execValue],
+    fun pid e => by simp [Model.execValue], fun g h => ?_, by decide⟩
+  rw [Proofs.execStatus_signaled h, Gen_execSignalBase_eq]
 
 /-- Reading the three results `exec()` consumes. -/
 theorem C13_child_outcome (d : Bool) (f w : Res) :
@@ -376,7 +398,8 @@ every behaviour of the file system, every fault, every interleaving with other p
 `openFds tr` as in `S`).  `Proofs.Own.ForkFds tr`: there are `ds`, `m`, `s` with `FdsAre tr (ds ++ [m, s])`, where
 
 * `ds` are at most two directory streams, each returned by a successful `opendir` of the trace (the maildir being
-  walked - `new`, `cur` or the stdin spool - and, after a move or flag action, the maildir the message is in now);
+  walked - `new`, `cur` or the stdin spool - and, after a move or flag action, the maildir the message is in now; at the
+  `fork` of a `command` CONDITION, which runs while the rules are evaluated, only the first);
 * `m` is the descriptor of the message, returned by a successful `openat(O_RDONLY|O_CLOEXEC)` of the trace;
 * `s` is the descriptor `exec()` makes the child's standard input (`Proofs.Own.ChildStdin tr s`): the call just before
   the `fork` is the successful `open("/dev/null", O_RDONLY|O_CLOEXEC)` that returned `s`, or it is the successful
@@ -387,12 +410,13 @@ and nothing else: no descriptor of an earlier message, no write descriptor of a 
 stream of the configuration file, no third directory. -/
 
 /-- **Descriptor hygiene.**  For every configuration, registry, input and for ARBITRARY results of all calls: at every
-`fork` issued by a run of `main` - maildir mode or stdin mode, whatever actions precede the exec, inside or outside an
-attachment block - the descriptors the run has created and not released are exactly those `ForkFds` lists.
-Scope (audit note): the forks of `mainP` are those of exec ACTIONS.  A `command` CONDITION issues no call in `mainP`
-(`Model/Main.lean` evaluates the rules with `command := fun _ => -1`), so the fork of a command condition is not among
-the forks this theorem quantifies over; and the table holds what the run itself created - descriptors 0, 1, 2 and
-anything else inherited at start-up are not in it. -/
+`fork` issued by a run of `main` - maildir mode or stdin mode, the `fork` of an `exec` action (whatever actions precede
+the exec, inside or outside an attachment block) as well as the `fork` of a `command` condition during the evaluation of the
+rules (`Model.evalP`: the table there is the directory stream of the maildir, the descriptor of the message and `/dev/null`,
+`Proofs.Own.fds_evalP`) - the descriptors the run has created and not released are exactly those `ForkFds` lists.
+(Audit note: the table holds what the run itself created - descriptors 0, 1, 2 and anything else inherited at start-up are not
+in it.  The audit's other remark - that the fork of a `command` condition was not among the forks of `mainP` - described the
+model before package p4; it is now.) -/
 theorem C13_fd_hygiene (env : PEnv) (orc : EvalOracles) (ok : Bool) (conf : List ConfBlock) (files : Files) (input : Bytes)
     (orcl : Nat → Call → Res) (j : Nat) (r : Res)
     (h : (runOracle orcl (mainP env orc ok conf files input) 0 []).2[j]? = some (.fork, r)) :
@@ -426,6 +450,18 @@ example :
 
 example : Proofs.Own.ForkFds ((Proofs.FdsEx.trace false).take 8) ∧ Proofs.Own.ForkFds ((Proofs.FdsEx.trace true).take 9) :=
   ⟨C13_fd_hygiene _ _ _ _ _ _ _ 8 _ Proofs.FdsEx.tables.1, C13_fd_hygiene _ _ _ _ _ _ _ 9 _ Proofs.FdsEx.tables.2.2.2.2.1⟩
+
+/-- Non-vacuity for the `fork` of a `command` condition (`Proofs.FdsEx.tablesC`): `match command "false" move "/d"` over
+the same maildir; the `fork` of evaluation is call 8, the table there is `[(4, opendir /m/new), (5, openat 1.h),
+(6, open /dev/null)]`, `/dev/null` opened by the call before; the child exits 1, the condition does not match, nothing is
+moved, at the end nothing is open. -/
+example :
+    Proofs.FdsEx.traceC[8]? = some (.fork, .ok 0) ∧
+    openFdsBy (Proofs.FdsEx.traceC.take 8) =
+      [(4, .opendir Proofs.exNew), (5, .openRd 4 Proofs.exName), (6, .openPath (ofString "/dev/null"))] ∧
+    openFds Proofs.FdsEx.traceC = [] ∧ Proofs.Own.ForkFds (Proofs.FdsEx.traceC.take 8) :=
+  ⟨Proofs.FdsEx.tablesC.2.1, Proofs.FdsEx.tablesC.2.2.1, Proofs.FdsEx.tablesC.2.2.2.2,
+   C13_fd_hygiene _ _ _ _ _ _ _ 8 _ Proofs.FdsEx.tablesC.2.1⟩
 
 /-- The constructors and their flags: which calls create a descriptor, and which of these are close-on-exec forms. -/
 theorem C13_cloexec_forms (c : Call) :
@@ -489,5 +525,53 @@ example : ({ ty := .exec, lno := 1, part := 0 } : Match).ty = .exec ∧
 example : (Proofs.FdsEx.trace false)[7]? = some (.openPath Proofs.Own.devNull, .ok 6) ∧
     (Proofs.FdsEx.trace true)[7]? = some (.dupfd 5, .ok 6) ∧ (Proofs.FdsEx.trace true)[8]? = some (.lseek 6, .ok 0) :=
   Proofs.FdsEx.before_fork
+
+/-! ## The `command` condition inside a run (`expr_eval_command`)
+
+Conditions are evaluated inside the run (`Model.evalT` / `Model.evalP`, Model/EvalP.lean): a `command` condition asks
+the operating system one question, `Req.command av`, which `Model.sysCall` turns into the calls of util.c
+`exec(argv, -1)` (`open("/dev/null")`, `fork`, `waitpid`, `close`: `C03_evaluation_calls`). -/
+
+/-- **The `command` condition**: when its entry can be appended and its strings interpolate to `av` - one argument per
+configured string, in order (`List.mapM`), interpolated against the entries of the rule so far, no shell, no splitting -
+the evaluation asks exactly the question `command av` and is *match* if `exec()` returned 0, *error* if it returned a
+negative value (`C04_command_failure_causes`: `/dev/null`, `fork`, `waitpid` failed, or exit status 127) and *no match*
+otherwise (any other exit status, death by a signal); the entry is removed again. -/
+theorem C13_command_condition (env : Env) (root : Msg) (lno : Nat) (argv : List Bytes)
+    (part : Nat) (m : Msg) (st : St) (ml : MatchList) (av : List Bytes)
+    (happ : matchesAppend env st.ml { ty := .command, lno := lno, part := part, strings := argv } = (ml, false))
+    (hav : argv.mapM (interpolate ml.dropLast none) = some av) :
+    evalT env root (.command lno argv) part m st =
+      (ask (.command av)).bind fun a =>
+        .ret (if ansStatus a == 0 then .match else if ansStatus a < 0 then .error else .nomatch,
+              { st with ml := ml.dropLast }) := by
+  simp only [evalT, happ, hav, Bool.false_eq_true, ↓reduceIte]
+
+/-- **`C13_command_status` inside the run** (its corollary through `Proofs.evalT_command_run`: the command oracle of the
+evaluator-level statement IS `exec()` on the results of the three calls this run makes for the condition - `open("/dev/null")`
+at step `j`, `fork` at `j + 1`, `waitpid` at `j + 2`): for every wait status the condition MATCHES iff the child was waited
+for and exited 0, does NOT match iff it exited with 1..126 / 128..255 or was killed by a signal (or is reported stopped), is
+an ERROR iff it could not be run or exited with 127; the match list is left as it was. -/
+theorem C13_command_condition_status (env : Env) (root : Msg) (lno : Nat) (argv av : List Bytes) (part : Nat) (m : Msg)
+    (st : St) (hav : argv.mapM (interpolate st.ml none) = some av) (orcl : Nat → Call → Res) (j : Nat) :
+    let o := Proofs.childOutcome (match orcl j (.openPath (ofString "/dev/null")) with | .ok _ => true | _ => false)
+      (orcl (j + 1) .fork) (orcl (j + 2) .waitpid)
+    let r := (Proofs.Own.runO orcl (evalT env root (.command lno argv) part m st).toProg j).1
+    r.2 = st ∧
+    (r.1 = .match ↔ o = .waited (.exited 0)) ∧
+    (r.1 = .nomatch ↔ (∃ c, o = .waited (.exited c) ∧ c ≠ 0 ∧ c ≠ 127) ∨ (∃ g, o = .waited (.signaled g)) ∨ o = .waited .stopped) ∧
+    (r.1 = .error ↔ o = .cannotRun ∨ o = .waited (.exited 127)) := by
+  intro o r
+  have hr : r = _ := Proofs.evalT_command_run env root lno argv part m st orcl j
+  rw [hr]
+  exact C13_command_status _ root lno argv av part m st hav _ _ _ rfl
+
+/-- Non-vacuity: `command { "t" "a b" }` in an empty rule context: two arguments, the second with its blank. -/
+example :
+    matchesAppend Proofs.exampleEnv [] { ty := .command, lno := 1, part := 0, strings := [[116], [97, 32, 98]] } =
+      ([{ ty := .command, lno := 1, part := 0, strings := [[116], [97, 32, 98]] }], false) ∧
+    [[116], [97, 32, 98]].mapM (interpolate ([{ ty := .command, lno := 1, part := 0, strings := [[116], [97, 32, 98]] }] : MatchList).dropLast none) =
+      some [[116], [97, 32, 98]] := by
+  decide +kernel
 
 end Mdsort.Props
